@@ -18,8 +18,8 @@ for pid in claimed:
       "replay_cmd_template":"./bin/gosmt replay {path}",
       "engine":"gosmt",
       "technique":"bounded symbolic execution of the real Go SSA (loops unrolled with unwinding assertions, joins merged with ite) + SMT (z3 5.1 / cvc5 bv-as-int); counterexamples replayed natively",
-      "level_claimed":{"category":"model_checking","text":t.get("level","Every obligation (vAssert, every reachable Go panic site, every unwinding assertion) of the listed harnesses is decided by the solver for all values of the symbolic inputs within the stated bounds; nothing is claimed outside them."),"design_ref":"DESIGN.md section 6, "+pid},
-      "level_note":t.get("note","Trusted: the gosmt encoder (validated by native replay of every counterexample and by pushing the repo's own test vectors through real code and encoding), z3/cvc5, the engine-level library models and harness stubs listed in the evidence under 'stubs'.")
+      "level_claimed":{"category":"model_checking","text":t.get("level","Every obligation (vAssert, every reachable Go panic site, every unwinding assertion) of the listed harnesses is decided by the solver for all values of the symbolic inputs within the stated bounds; nothing is claimed outside them."),"design_ref":"DESIGN.md section 10.3 (as built), section 6 "+pid+" (plan)"},
+      "level_note":t.get("note","Trusted: the gosmt encoder (every counterexample is replayed natively before it is reported; 50 of 59 independently seeded changes are reported as reproduced violations, DESIGN.md 10.6), z3/cvc5, the engine-level library models and the harness stubs listed per run in the evidence under 'stubs' and 'assumptions'. Bounds and what lies outside them are repeated per harness in the evidence.")
     })
 na=[{"property_id":p['id'],"reason":TEXT.get(p['id'],{}).get("na","check not built yet (work in progress)")} for p in props if p['id'] not in claimed]
 m={"version":1,"setup_cmd":"./setup.sh",
